@@ -51,8 +51,56 @@ def per_step_scale(kappa):
     return f
 
 
+def relate_pow2_exact(kap):
+    """a power-of-two factor commutes exactly with f32 arithmetic: every energy must be exactly kap times the base's,
+    every ratio identical — unless the code compares an energy with an absolute constant"""
+    def rel(eb, ev, base, var):
+        a, b = eb.get("ep", {}), ev.get("ep", {})
+        if "ok" not in a or "ok" not in b:
+            ka = a.get("err") or ("ok" if "ok" in a else "?")
+            kb = b.get("err") or ("ok" if "ok" in b else "?")
+            return [] if ka == kb else [("variant evaluates to a different outcome", {"base": ka, "variant": kb})]
+        fa, fb = oracles.flat_ep(a["ok"]), oracles.flat_ep(b["ok"])
+        for k2 in sorted(set(fa) | set(fb)):
+            if k2 in ("k_exp", "arearef") or metacheck.is_per_step(k2):
+                continue
+            x, y = fa.get(k2, Fraction(0)), fb.get(k2, Fraction(0))
+            want = x if k2.startswith("rer") else x * kap
+            if y != want:
+                return [("result does not scale with the energy (power-of-two factor, exact)",
+                         {"path": k2, "base": core.fstr(x), "variant": core.fstr(y), "expected": core.fstr(want)})]
+        return []
+    return rel
+
+
+def marginal_export_building(rng):
+    """on-site electricity production equal to the use at every step except one, where it exceeds it by 1/2048 kWh:
+    the annual export is positive and below every 'small energy' constant of the code"""
+    b = gen.Building()
+    n = rng.choice([1, 3, 12])
+    b.n = n
+    u = [gen.dy(rng, 64, 64 * 200) for _ in range(n)]
+    t = rng.randrange(n)
+    p = [x + (Fraction(1, 2048) if s == t else 0) - (gen.dy(rng, 1, 32) if s != t and rng.random() < 0.5 else 0) for s, x in enumerate(u)]
+    b.add("CONSUMO", id=1, service=rng.choice(["CAL", "ILU", "ACS"]), carrier="ELECTRICIDAD", values=u)
+    b.add("PRODUCCION", id=1, source="EL_INSITU", values=p)
+    if rng.random() < 0.5:
+        b.add("CONSUMO", id=2, service="CAL", carrier=rng.choice(["GASNATURAL", "BIOMASA"]), values=[gen.dy(rng, 64, 64 * 200) for _ in range(n)])
+    b.tags.add("marginal_export")
+    return b
+
+
 def make_pairs(rng, count):
     pairs = []
+    for i in range(count // 8):
+        fspec, user = {"loc": rng.choice(core.LOCS)}, {}
+        k, area, lm = gen.gen_params(rng)
+        b = marginal_export_building(rng)
+        base = epflow.EpCase("m%d" % i, {"text": text_of(b)}, fspec, user, [(k, area, False)], tags=b.tags)
+        kap = rng.choice([Fraction(4), Fraction(64), Fraction(4096)])
+        vb = metacheck.scale_building(b, kap)
+        v = epflow.EpCase("m%dk" % i, {"text": text_of(vb)}, fspec, user, [(k, area, False)], tags=b.tags)
+        pairs.append((base, [(v, relate_pow2_exact(kap), "marginal export, energy x %s (exact)" % kap)]))
     for i in range(count):
         fspec, user = gen.gen_factors_spec(rng)
         k, area, lm = gen.gen_params(rng)
@@ -100,4 +148,5 @@ def run(tier, seed):
                          "weighted parts, totals; ratios and load matching unchanged) under the domain hypothesis on both sides; "
                          "area law from C04; invariance of the DHW fraction under scaling is established by the differential run only",
                          "structured random buildings with values >= 1 kWh; energy scale factors 1/64, 1/4, 2, 16, 1024 (exact) and "
-                         "0.1, 3, 1000 (within tolerance); area factors 1/2, 4, 10; non-trivial = the pair evaluates successfully")
+                         "0.1, 3, 1000 (within tolerance); area factors 1/2, 4, 10; buildings whose annual export is 1/2048 kWh scaled by "
+                         "4, 64, 4096 and compared exactly (a power of two commutes with f32 arithmetic); non-trivial = the pair evaluates successfully")
